@@ -129,6 +129,18 @@ func c10Hostile(target string) []c10Doc {
 			d("procinst", c10Rep("<?x ", 20000)+"?>"),
 			d("text-urls", "<r>"+c10Rep("http://example.org/a.png https://x.example/b ", 4000)+"</r>"),
 			d("charset", `<?xml version="1.0" encoding="`+c10Rep("x", 70000)+`"?><r>http://example.org/</r>`),
+			// declared encodings the decoder may or may not know (supported, registered-but-unimplemented, unknown): an
+			// unsupported one must cost this document its links, nothing more
+			d("charset-gb2312", `<?xml version="1.0" encoding="GB2312"?><urlset xmlns="http://www.sitemaps.org/schemas/sitemap/0.9"><url><loc>http://example.org/a</loc></url></urlset>`),
+			d("charset-utf32", `<?xml version="1.0" encoding="UTF-32"?><rss><channel><link>http://example.org/feed</link></channel></rss>`),
+			d("charset-utf7", `<?xml version="1.0" encoding="utf-7"?><r a="http://example.org/x.png">http://example.org/y</r>`),
+			d("charset-tis620", `<?xml version="1.0" encoding="TIS-620"?><r>http://example.org/</r>`),
+			d("charset-iso2022kr", `<?xml version='1.0' encoding='ISO-2022-KR'?><r>http://example.org/</r>`),
+			d("charset-sjis", `<?xml version="1.0" encoding="Shift_JIS"?><r>http://example.org/e</r>`),
+			d("charset-latin1", `<?xml version="1.0" encoding="ISO-8859-1"?><r>http://example.org/café</r>`),
+			d("charset-cp1252", `<?xml version="1.0" encoding="windows-1252"?><r>http://example.org/</r>`),
+			d("charset-ucs2", `<?xml version="1.0" encoding="ISO-10646-UCS-2"?><r>http://example.org/</r>`),
+			d("charset-empty", `<?xml version="1.0" encoding=""?><r>http://example.org/</r>`),
 			d("nul-invalid", "<r a=\"http://e.org/\x00\xff\">\x00\xfe\xffhttp://e.org/\x01</r>"),
 			d("unbalanced-ends", c10Rep("</a>", 30000)+"<r>http://example.org/x</r>"),
 		}
